@@ -44,6 +44,9 @@ func (f *Frame) builtin(x *ssa.Call, b *ssa.Builtin, c *ssa.CallCommon, at strin
 		return f.copyOp(x, c, at, st)
 	case "print", "println":
 		return &Val{}
+	case "close":
+		f.closeBuiltin(c, at)
+		return &Val{}
 	}
 	panic(unsupported{"builtin " + b.Name()})
 }
@@ -220,6 +223,12 @@ func (f *Frame) loopEffects(li *loopInfo) *effectSet {
 					if m, ok := rng.X.Type().Underlying().(*types.Map); ok {
 						e.comps[f.rangeComp(rng, m).Name] = true
 					}
+				}
+			}
+			if sd, ok := in.(*ssa.Send); ok {
+				if _, name := f.producerChan(sd.Chan); name != "" {
+					e.comps[vc.ghostBool("ChanFinal_"+name).Name] = true
+					e.comps[vc.ghostInt("ChanCount_"+name).Name] = true
 				}
 			}
 		}
@@ -460,6 +469,24 @@ func (f *Frame) enterLoop(li *loopInfo, b *ssa.BasicBlock, preds []*ssa.BasicBlo
 				vc.oblige("frame", fmt.Sprintf("loop%d:%s", li.ordinal, l.Src), at, goal, "", "loop frame is within the enclosing frame", vc.con.Serves)
 			}
 		}
+		// local (non-escaping) variables that the loop body assigns are part of the
+		// loop's frame without having to be listed
+		for blk := range li.blocks {
+			for _, in := range blk.Instrs {
+				st, ok := in.(*ssa.Store)
+				if !ok {
+					continue
+				}
+				if al, ok := rootOfAddr(st.Addr).(*ssa.Alloc); ok && !al.Heap && !li.blocks[al.Block()] {
+					if v, ok := f.env[al]; ok && v.T != "" {
+						pt := al.Type().Underlying().(*types.Pointer)
+						if _, isArr := pt.Elem().Underlying().(*types.Array); !isArr {
+							locs = append(locs, modLoc{Comp: vc.S.cellComp(pt.Elem()), Ref: v.T, Src: "local " + al.Comment})
+						}
+					}
+				}
+			}
+		}
 		frameLocs, framed = locs, true
 		entryBound = preAlloc
 		preHeap = cur.clone()
@@ -675,19 +702,7 @@ func (f *Frame) atPanic(x *ssa.Panic, at string, st *State) {
 	vc.oblige("safe/unreachable-panic", label, at, "false", vc.P.line(x.Pos()), "explicit panic must be unreachable", vc.con.Serves)
 }
 
-// ---- defers / channels: outside the subset for now ---------------------------------
-
-func (f *Frame) deferCall(x *ssa.Defer, at string, st *State) {
-	panic(unsupported{"defer"})
-}
-
-func (f *Frame) runDefers(x *ssa.RunDefers, at string, st *State) {
-	// only reached when a Defer was accepted
-}
-
-func (f *Frame) recv(x *ssa.UnOp, at string, st *State) *Val {
-	panic(unsupported{"channel receive"})
-}
+// (defers, channels, goroutines: chan.go)
 
 // ---- top-level driver ----------------------------------------------------------------
 
